@@ -466,6 +466,14 @@ def part_c(h, tmp):
             if h.check(ser_res[0] == "ok", key + ":serialize", f"serializer failed: {ser_res}", case):
                 back = outcome(handler.deserializer, ser)
                 pair_ok = rt_check(h, back[0] == "ok" and nan_eq(back[1], v), key, "pair", back, f"deserializer(serializer(v)) = {back[1] if back[0] == 'ok' else back!r} via {ser!r}"[:300], case)
+            # (1b) history: deserialising the same text twice gives two independent objects (editing the first result must not show in the second:
+            #      nothing of one parse is remembered for the next)
+            if pair_ok and isinstance(v, (bytearray, list, dict, set)):
+                a = outcome(handler.deserializer, ser)
+                if a[0] == "ok" and isinstance(a[1], bytearray):
+                    a[1].extend(b"-edited")
+                b = outcome(handler.deserializer, ser)
+                h.check(b[0] == "ok" and nan_eq(b[1], v) and b[1] is not a[1], f"c20:fresh-result:{tn}", f"a second deserialisation of {ser!r} gives {b[1] if b[0] == 'ok' else b!r} after the first result was edited", case)
             # (2) a value that already has the type is taken as it is
             res = outcome(p.parse_object, {"k": v})
             rt_check(h, res[0] == "ok" and nan_eq(res[1].k, v), key, "object", res, f"parse_object of the value gives {res!r}"[:300], case)
